@@ -1505,6 +1505,9 @@ static void SwitchTo_6809(void) {
     InitFields();
     AddMoto16PseudoONOFF();
 
+    /* the default of this target, not what the previous one left behind */
+    SetFlag(&DoPadding, DoPaddingName, False);
+
     pASSUMERecs  = ASSUME09s;
     ASSUMERecCnt = ASSUME09Count;
 }
